@@ -14,7 +14,7 @@ LEVEL = 'fault_enumeration'
 RUNS = {'quick': 361 * 6, 'thorough': 361 * 60}
 CHUNK = 20
 RECHECK_MOD = 59
-PROBES = ['small_word_windows', 'host_environment_swapped', 'errno_sweep', 'signal_sweep', 'family_sweep', 'kind_sweep', 'sockopt_levels', 'pipe_variant', 'large_error_word',
+PROBES = ['negative_return_words', 'path_outside_ascii', 'small_word_windows', 'host_environment_swapped', 'errno_sweep', 'signal_sweep', 'family_sweep', 'kind_sweep', 'sockopt_levels', 'pipe_variant', 'large_error_word',
           'out_of_domain_on_some_host', 'spot_checked', 'formatted_traces_path']
 RULE = ('one run = one BSD decoder (run index mod number of BSD decoders) x 24 error words drawn from 0..260 and a few huge values '
         '(all of 0..127 for every 12th run), plus full sweeps of signals 0..40, address families 0..45, socket kinds 0..8 and option '
@@ -71,6 +71,16 @@ def _events(scn):
             if where == 'S':
                 s[idx] = base_s[idx]
         window(s, [r.pick([0, 0, 2, 13]), 0, 0, 0], 'small=%r' % (s,), 'small', j)
+    # failures handed back as a negative return value (error slot clear), with every high flag bit of every free START word
+    free = [i for i in range(4) if not any(where == 'S' and idx == i for where, idx, _k, _s in domains.DOMAINS.get(name, ()))]
+    for i in free:
+        for bit in range(16, 32):
+            s = list(base_s)
+            s[i] |= 1 << bit
+            k = r.randrange(1, 107)
+            window(s, [0, (-k) & r.pick([0xffffffff, (1 << 64) - 1]), 0, 0], 'start[%d]|=1<<%d return=-%d' % (i, bit, k), 'negret', k)
+    for k in (r.randrange(1, 107), r.randrange(1, 107)):
+        window(list(base_s), [0, (-k) & 0xffffffff, 0, 0], 'return=-%d' % k, 'negret', k)
     if hf == 'signal':
         for sig in list(range(0, 41)) + [63, 64, 65, 66, 127, 128]:
             s = list(base_s)
@@ -104,6 +114,10 @@ def execute(scn):
     name = scn['decoder']
     hf = HOST_FIELD.get(name)
     bump('probe:errno_sweep')
+    if any(k == 'negret' for _l, k, _n, _r in evs):
+        bump('probe:negative_return_words')
+    if any('/c' in r_.get('o', '') and any(b > 127 for b in kernel.to_bytes(r_)[8:40]) for _l, _k, _n, rr in evs for r_ in rr):
+        bump('probe:path_outside_ascii')
     if scn.get('small'):
         bump('probe:small_word_windows')
     if hf == 'signal':
@@ -219,6 +233,10 @@ def execute(scn):
         wspec = {'version': 3, 'tmap': [[900, 5, 'proc', '']], 'chunks': [], 'filler1': '', 'filler2': '', 'gaps': [], 'cpu_info': {}, 'plist_fmt': 'binary',
                  'pad_last': True, 'blocks': [{'kind': 'logs', 'payload': {'Events': evs_l}}, {'kind': 'strings', 'payload': {'StringIndex': {s_: i for i, s_ in enumerate(strs)}}}]}
         recs0 = [r_ for _l, _k, _n, rr in evs[:2] for r_ in rr]
+        # and a call whose path has bytes outside ASCII: paths are the kernel's bytes (UTF-8), not text in the host's encoding
+        path_op = {'k': 'sys', 'name': 'BSC_open', 's': [0, 0, 0, 0], 'e': [0, 3, 0, 0],
+                   'in': [{'k': 'lookup', 'path': '/tmp/caf\u00e9-' + r5.text(r5.randint(1, 40)), 'vnode': r5.randrange(1, 1 << 48)}]}
+        recs0 += kernel.merge([kernel.expand(path_op, 900, worlds.catalog()['ids'], 'p')], [])
         for j, r_ in enumerate(recs0):
             r_['ts'] = 0x2001 + 3 * j
         data3, _ = worlds.build_file(wspec, [kernel.to_bytes(r_) for r_ in recs0] + [kernel.records.pack(0x3001, [1, 2, 3, 4], 900, 0xf1230001)])
